@@ -7,7 +7,7 @@ namespace BloomVerif.Cursor
 def Inv (s : St) : Prop :=
   (s.iterDone = true → s.finalized = true ∧ s.workersDone = true ∧ s.nextFalse ≥ 1) ∧
   (s.finalized = true → s.workersDone = true) ∧
-  (s.callerCanceled = true → s.internalCanceled = true) ∧
+  (s.inNext = true → s.canceledAtEntry = true → s.sawCancel = true ∧ s.callerCanceled = true) ∧
   (s.closeCalls ≥ 1 → s.finalized = true ∧ s.internalCanceled = true) ∧
   (s.finalized = true → s.err = .clean → s.recorded = 0) ∧
   (s.chan ≤ 4)
@@ -123,6 +123,17 @@ theorem close_idempotent_aux (s s' s'' : St) (h1 : step s .close = some s') (h2 
     simp at h2
     cases h2
     simp
+
+/-- A Next that began after the Query context had ended decides the context error. -/
+theorem canceled_before_next_aux (s s' : St) (e : Ev) (hr : Reachable s) (hin : s.inNext = true)
+    (hc : s.canceledAtEntry = true) (hf : s.finalized = false) (hs : step s e = some s') (hf' : s'.finalized = true)
+    (he : e ≠ .close) : s'.err = .canceled := by
+  obtain ⟨hsaw, hcc⟩ := (inv_reachable_aux s hr).2.2.1 hin hc
+  cases e <;> simp only [step] at hs <;> (try split at hs) <;> (try split at hs) <;>
+    first
+    | (cases hs)
+    | skip
+  all_goals simp_all [finish]
 
 end BloomVerif.Cursor
 
